@@ -93,6 +93,11 @@ CHECKS['C06'] = dict(cat='model_checking', ref='5/C06',
     note='Faults are placed by a seeded generator (one per cycle at most), not enumerated exhaustively; shards removed by scaling lose their volume.',
     tech='TLA+ closed-loop model with fault parameters; trace validation of real fault-injected runs; TLC evaluation of run formulas')
 
+CHECKS['C19'] = dict(cat='model_checking', ref='5/C19',
+    text='Independence is decided per replica and cycle by membership: the real Coordinator is run with TWO replicas (either order; the neighbour normal, failing to list its shards, entirely unready, or with a failing scale request; shared options, discovery and explorer objects) for one or two consecutive cycles, and what each replica receives (complete request logs, target POST bodies, scale requests) must be an outcome the replica gets ALONE - an element of the outcome set TLC enumerates from Rebalance.tla for its input, or an outcome observed when the real coordinator runs with that replica only (so that a change of single-replica behaviour is not blamed on independence); a replica whose listing fails gets no request while the other is coordinated completely; the per-replica formulas of RebalanceProps (C01, C04, C05, C07, C08) are evaluated by TLC on what each replica received in the joint run.',
+    note='Influence is looked for in what the shards receive; the published global status (API /targets) is outside the statement.',
+    tech='TLC outcome-set enumeration per replica; joint vs solo differential runs of the real coordinator over two cycles; TLC evaluation of per-replica formulas')
+
 ALL = ['C%02d' % i for i in range(1, 21)]
 
 
